@@ -59,6 +59,8 @@ Observe == /\ l = 1
                 \* a deep copy of the altered pipeline is a pipeline of its own (outputs, records), also after the
                 \* original is trained again; scikit-learn's own scorers see the same predictions as before
                 /\ Require(T.copy_ok, T.id, "DebugCopyIsIndependent", l, <<>>)
+                \* after a call that raised inside a step, the pipeline's record is the input of that call
+                /\ Require(T.failed_call_recorded, T.id, "DebugRecordsFailedCall", l, <<>>)
                 /\ Require(T.scorers_ok, T.id, "DebugTransparentForScorers", l, <<>>)
                 /\ Require(Unseen = {}, T.id, "DebugRecordsEveryStep", l, [nodes |-> Unseen])
                 /\ Require(BadRecord = {}, T.id, "DebugRecordsActualInputOutput", l, [nodes |-> BadRecord])
